@@ -251,7 +251,7 @@ def _divmod(chk, ctx) -> None:
             if isinstance(n, ast.Call) and self_attr(n.func) == 'divmod':
                 sites.append((fi, n))
     for fi, call in sites:
-        cname = f'State.{fi.name}:divmod({stmt_text(call.args[0], 30) if call.args else ""})'
+        cname = f'State.{fi.name}:divmod(/{stmt_text(call.args[1], 30) if len(call.args) > 1 else ""})'
         # the assignment taking both results
         asg = None
         for n in walk_no_nested(fi.node):
